@@ -318,7 +318,8 @@ func (w *World) panicSites() []panicSite {
 					case strings.HasSuffix(n, "openapi3.PathItem).SetOperation"):
 						add(fn, "lib-panic", "PathItem.SetOperation(unknown method)", x.Pos())
 					case n == pkgRaymond+".RegisterPartials" || n == pkgRaymond+".RegisterPartial" || n == pkgRaymond+".RegisterHelper" || n == pkgRaymond+".RegisterHelpers":
-						add(fn, "lib-panic", strings.TrimPrefix(n, pkgRaymond+".")+"(duplicate)", x.Pos())
+						// (RegisterHelpers / RegisterPartials are loops over the single form: same failure, same invariant)
+						add(fn, "lib-panic", strings.TrimSuffix(strings.TrimPrefix(n, pkgRaymond+"."), "s")+"(duplicate)", x.Pos())
 					case n == pkgRaymond+".Render" || n == pkgRaymond+".MustRender":
 						if n == pkgRaymond+".MustRender" {
 							add(fn, "lib-panic", "MustRender", x.Pos())
@@ -942,7 +943,7 @@ func (w *World) condLoops() []loopSite {
 				return true
 			}
 			counted := fs.Init != nil && fs.Cond != nil && fs.Post != nil
-			if counted {
+			if counted || selfEvidentVariant(fs) {
 				return true
 			}
 			n++
@@ -1225,6 +1226,135 @@ func rangeFuncProtocolPanic(msg string) bool {
 	for _, p := range []string{"yield function called after range loop exit", "iterator call did not preserve panic", "range function", "iterator"} {
 		if strings.HasPrefix(msg, p) {
 			return true
+		}
+	}
+	return false
+}
+
+// selfEvidentVariant: `for ... v < bound ... { ...; v++ }` written without the init/post
+// clauses: a conjunct of the condition compares a variable with something the body does not
+// assign, and the body moves that variable towards the bound by a constant step in a top-level
+// statement, with no `continue` that could bypass it and no other assignment to it.
+func selfEvidentVariant(fs *ast.ForStmt) bool {
+	if fs.Cond == nil {
+		return false
+	}
+	var conjuncts []ast.Expr
+	var split func(e ast.Expr)
+	split = func(e ast.Expr) {
+		e = ast.Unparen(e)
+		if b, ok := e.(*ast.BinaryExpr); ok && b.Op == token.LAND {
+			split(b.X)
+			split(b.Y)
+			return
+		}
+		conjuncts = append(conjuncts, e)
+	}
+	split(fs.Cond)
+	assigned := map[string]int{}
+	hasContinue := false
+	var scan func(n ast.Node, depth int)
+	scan = func(n ast.Node, depth int) {
+		ast.Inspect(n, func(x ast.Node) bool {
+			switch y := x.(type) {
+			case *ast.FuncLit:
+				return false
+			case *ast.BranchStmt:
+				if y.Tok == token.CONTINUE || y.Tok == token.GOTO {
+					hasContinue = true
+				}
+			case *ast.AssignStmt:
+				for _, l := range y.Lhs {
+					if id, ok := l.(*ast.Ident); ok {
+						assigned[id.Name]++
+					}
+				}
+			case *ast.IncDecStmt:
+				if id, ok := y.X.(*ast.Ident); ok {
+					assigned[id.Name]++
+				}
+			case *ast.RangeStmt:
+				for _, l := range []ast.Expr{y.Key, y.Value} {
+					if id, ok := l.(*ast.Ident); ok {
+						assigned[id.Name]++
+					}
+				}
+			case *ast.UnaryExpr:
+				if y.Op == token.AND {
+					if id, ok := y.X.(*ast.Ident); ok {
+						assigned[id.Name] += 2 // address taken: anything may write it
+					}
+				}
+			}
+			return true
+		})
+	}
+	scan(fs.Body, 0)
+	if hasContinue {
+		return false
+	}
+	// direction of the top-level step statements
+	step := map[string]int{}
+	for _, st := range fs.Body.List {
+		switch y := st.(type) {
+		case *ast.IncDecStmt:
+			if id, ok := y.X.(*ast.Ident); ok {
+				if y.Tok == token.INC {
+					step[id.Name] = 1
+				} else {
+					step[id.Name] = -1
+				}
+			}
+		case *ast.AssignStmt:
+			if len(y.Lhs) == 1 && len(y.Rhs) == 1 && (y.Tok == token.ADD_ASSIGN || y.Tok == token.SUB_ASSIGN) {
+				if id, ok := y.Lhs[0].(*ast.Ident); ok {
+					if lit, ok := y.Rhs[0].(*ast.BasicLit); ok && lit.Kind == token.INT && lit.Value != "0" {
+						if y.Tok == token.ADD_ASSIGN {
+							step[id.Name] = 1
+						} else {
+							step[id.Name] = -1
+						}
+					}
+				}
+			}
+		}
+	}
+	mentions := func(e ast.Expr) map[string]bool {
+		out := map[string]bool{}
+		ast.Inspect(e, func(x ast.Node) bool {
+			if id, ok := x.(*ast.Ident); ok {
+				out[id.Name] = true
+			}
+			return true
+		})
+		return out
+	}
+	for _, cj := range conjuncts {
+		b, ok := cj.(*ast.BinaryExpr)
+		if !ok {
+			continue
+		}
+		try := func(v ast.Expr, bound ast.Expr, dir int) bool {
+			id, ok := ast.Unparen(v).(*ast.Ident)
+			if !ok || step[id.Name] != dir || assigned[id.Name] != 1 {
+				return false
+			}
+			for nm := range mentions(bound) {
+				if assigned[nm] > 0 {
+					return false
+				}
+			}
+			return true
+		}
+		switch b.Op {
+		case token.LSS, token.LEQ: // v < bound: v rises; bound > v: bound... (X < Y)
+			if try(b.X, b.Y, 1) || try(b.Y, b.X, -1) {
+				return true
+			}
+		case token.GTR, token.GEQ: // v > bound: v falls
+			if try(b.X, b.Y, -1) || try(b.Y, b.X, 1) {
+				return true
+			}
 		}
 	}
 	return false
